@@ -387,7 +387,7 @@ class Gen:
 
     def function(self, sc):
         self.fn_count += 1
-        kind = self.r.randrange(16)
+        kind = self.r.randrange(18)
         name = f"f{self.fn_count}"
         deco = ""
         if self.chance(self.o["decorators"]):
@@ -475,6 +475,35 @@ class Gen:
                 call = f"{name}({arg()}, {arg()})" if two else f"{name}({arg()})"
                 out.append(self.pick([f"println({call})", f"let {name}r = {call}\nprintln({name}r)", f"println({call} + {call})"]))
             out.append(f"println({name}c)")
+        elif kind == 16:        # a lambda parameter named like a top-level constant / inlinable top-level function
+            self.features.add("lambda-param-shadows-global")
+            c = f"{name}c"
+            t = f"{name}t"
+            out.append(f"let {c} = {self.r.randrange(2, 9)}")
+            out.append(f'fn {t}() {{ return {self.r.randrange(100, 200)} }}')
+            body = self.pick([f"{c} * 2", f"{c} + {c}", f"{c} - 1", f"{c}"])
+            out.append(f"let {name}l = fn({c}) {{ return {body} }}")
+            out.append(f"println({name}l({self.r.randrange(10, 30)}))")
+            out.append(f"let {name}m = fn({t}) {{ return {t}() + 1 }}")
+            out.append(f"println({name}m(fn() {{ return {self.r.randrange(1, 9)} }}))")
+            if self.chance(0.5):
+                out.append(f"fn {name}(p) {{ let q = fn({c}, {t}) {{ return {c} + {t}() }}; return q(p, fn() {{ return 1000 }}) }}")
+                out.append(f"println({name}({self.r.randrange(1, 9)}))")
+            out.append(f"println({c} + {t}())")
+        elif kind == 17:        # a loop variable named like a variable its own range bounds / step mention
+            self.features.add("loop-var-in-own-bounds")
+            v = self.pick(["n", "lo", "k", "m"])
+            a = self.r.randrange(1, 5)
+            shape = self.pick([f"for {v} in 0..{v} {{ t = t + {v} }}",
+                               f"for {v} in {v}..={v} + 2 {{ t = t * 10 + {v} }}",
+                               f"for {v} in 1..20 step {v} {{ t = t + {v} }}",
+                               f"for {v} in {v}..0 step -1 {{ t = t + {v} }}"])
+            if self.chance(0.5):
+                out.append(f"fn {name}({v}) {{\n    let mut t = 0\n    {shape}\n    return t * 100 + {v}\n}}")
+                out.append(f"println({name}({a}))")
+            else:
+                out.append(f"fn {name}() {{\n    let mut {v} = {a}\n    let mut t = 0\n    {shape}\n    return t * 100 + {v}\n}}")
+                out.append(f"println({name}())")
         elif kind == 15:        # a capturing closure kept in a global, making nested functions, called again and again from one site
             self.features.add("global-closure-repeated-site")
             inner = self.pick(["let g = fn(x) { return x + 1 }; return g(c)",
